@@ -158,7 +158,7 @@ def judge(ctx: core.Ctx, case: dict[str, Any]) -> None:
             ctx.count("non_liquid_error_also_C02")
         ctx.evaluations += 1
         mech = classify(chosen)
-        ctx.violation(f"{k}:literal-percent" if mech == "literal-percent" else f"{k}:raises-{o.err_class}:{mech}", f"{src!r} with message {chosen!r} raised {o.err_class}: {str(o.exc)[:80]}", {"source": src})
+        ctx.violation(f"{k}:literal-percent" if mech == "literal-percent" else f"{k}:raises-{o.err_class}:{mech}", f"{src!r} with message {chosen!r} raised {o.err_class}: {drv.safe_str(o.exc)[:80]}", {"source": src})
         return
     if norm(o.value) != norm(exp):
         ctx.evaluations += 1
